@@ -421,8 +421,8 @@ def roundtrip_histories(hid0, rng, tmpdir, thorough):
     # ---- VCF import: phased diploid calls
     for clsname in ("DensePhasedGenotypeMatrix", "DenseGenotypeMatrix"):
         cls = imp("pybrops.popgen.gmat." + clsname, clsname)
-        for rep in range(4 if thorough else 2):
-            ns = rng.randrange(1, 5); nv = rng.randrange(1, 6)
+        for rep in range(8 if thorough else 4):
+            ns = rng.randrange(1, 5); nv = [1, 6, 3, 9][rep % 4] if rep < 4 else rng.randrange(1, 12)
             samples = [rng.choice(["S", "ind", "Ωx", "ln-"]) + str(k) for k in range(ns)]
             recs = []
             used = set()
